@@ -1,5 +1,5 @@
 #!/bin/bash
-# engineb-build.sh <check-dir-name> [extra go build flags]: builds an Engine B check through the overlay
+# [OUT=<binary name>] engineb-build.sh <check-dir-name> [extra go build flags]: builds an Engine B check through the overlay
 set -e
 export GOFLAGS=-mod=mod GOPROXY=off GOSUMDB=off GOTOOLCHAIN=local
 HERE=$(dirname "$(realpath "$0")")
@@ -7,4 +7,4 @@ ROOT=$(realpath "$HERE/..")
 C=$1; shift
 mkdir -p "$ROOT/.bin" "$ROOT/.overlay"
 (cd "$HERE" && go run ./overlaygen /repo "$HERE/_shim" "$ROOT/.overlay/$C" >/dev/null)
-(cd "$HERE" && go build -overlay "$ROOT/.overlay/$C/overlay.json" "$@" -o "$ROOT/.bin/$C" "./checks/$C")
+(cd "$HERE" && go build -overlay "$ROOT/.overlay/$C/overlay.json" "$@" -o "$ROOT/.bin/${OUT:-$C}" "./checks/$C")
